@@ -326,12 +326,96 @@ func (g *caseGen) reads() {
 	}
 }
 
+// bigGop appends one GOP of three frames to c.Ops: it lasts longer than the
+// fragment length, so the next GOP's key frame completes its segment. class
+// 2: the segment exceeds 1 MiB, 1: it exceeds 512 KiB (the capacity of a
+// pooled segment buffer), 0: small.
+func (g *caseGen) bigGop(class int) {
+	t0 := g.now
+	d := rapid.Int64Range(g.F+9000, g.F*18/10).Draw(g.rt, "d")
+	sz := func() int {
+		switch class {
+		case 2:
+			return rapid.IntRange(360000, 450000).Draw(g.rt, "size")
+		case 1:
+			return rapid.IntRange(180000, 300000).Draw(g.rt, "size")
+		}
+		return g.size(false)
+	}
+	g.c.Ops = append(g.c.Ops,
+		op{K: "v", Hdr: 0x65, Size: sz(), PTS: t0, DTS: t0},
+		op{K: "v", Hdr: 0x41, Size: sz(), PTS: t0 + d/2, DTS: t0 + d/2},
+		op{K: "v", Hdr: 0x01, Size: sz(), PTS: t0 + d - 300, DTS: t0 + d - 300})
+	g.now = t0 + d
+	g.stats = append(g.stats, []string{"big:gop-small", "big:gop>512KiB", "big:gop>1MiB"}[class])
+}
+
+// genBigCase: memory mode, segments larger than a pooled buffer. A reader is
+// opened for a big segment while it is the oldest one listed, the window then
+// rolls past it one to three times (its successor segments are completed and
+// the open segment has received frames), and only then the reader is read to
+// its end.
+func genBigCase(rt *rapid.T) (*caseSpec, []string) {
+	c := &caseSpec{FlushAt: -1, Fragment: rapid.SampledFrom([]int{1, 1, 2}).Draw(rt, "fragment")}
+	ps := repoParamSets[rapid.IntRange(0, len(repoParamSets)-1).Draw(rt, "paramSet")]
+	c.SPS, c.PPS = b64hex(ps[0]), b64hex(ps[1])
+	c.ASC, c.Rate = audioConfigs[0].asc, audioConfigs[0].rate
+	c.Path = "/big/" + rapid.StringMatching(`[a-z0-9]{1,6}`).Draw(rt, "path")
+	g := &caseGen{rt: rt, c: c, F: int64(c.Fragment) * 90000, cad: 1024 * 90000 / int64(c.Rate), psMode: "sprop"}
+	g.stats = append(g.stats, "big:case")
+	// segment 1 is the big one (> 1 MiB in a third of the cases); two small GOPs
+	// fill the window
+	big := 1
+	if rapid.IntRange(0, 2).Draw(rt, "over1MiB") == 0 {
+		big = 2
+	}
+	g.bigGop(big)
+	g.bigGop(0)
+	g.bigGop(0)
+	// the key frame of the fourth GOP completes segment 3: segment 1 is the oldest
+	// one listed; the reader is opened right behind that key frame
+	g.bigGop(0)
+	at := len(c.Ops) - 2
+	ins := []op{{K: "fetch", Back: 2}}
+	if rapid.Bool().Draw(rt, "startReading") {
+		ins = append(ins, op{K: "read", Rd: 0, N: rapid.SampledFrom([]int{188, 1000, 70000}).Draw(rt, "n")})
+	}
+	c.Ops = append(c.Ops[:at], append(ins, c.Ops[at:]...)...)
+	// the window rolls past segment 1 one to three times; the open segment has
+	// received the frames of its GOP each time
+	for rolls := rapid.IntRange(1, 3).Draw(rt, "rolls"); rolls > 0; rolls-- {
+		cl := 0
+		if rapid.IntRange(0, 5).Draw(rt, "bigAgain") == 0 {
+			cl = 1
+		}
+		g.bigGop(cl)
+	}
+	if rapid.IntRange(0, 3).Draw(rt, "playlist") == 0 {
+		c.Ops = append(c.Ops, op{K: "m3u8", Token: g.token()})
+	}
+	c.Ops = append(c.Ops, op{K: "read", Rd: 0, N: -1})
+	g.stats = append(g.stats, "big:reader-held-across-rollover")
+	c.FlushAt = len(c.Ops)
+	t := g.now
+	for k := 0; k < 4; k++ {
+		t += g.F + 90000
+		c.Ops = append(c.Ops, op{K: "v", Hdr: 0x65, Size: 9, PTS: t, DTS: t}, op{K: "v", Hdr: 0x41, Size: 9, PTS: t + 45000, DTS: t + 45000})
+	}
+	c.Ops = append(c.Ops, op{K: "close"})
+	return c, g.stats
+}
+
 func genCase(rt *rapid.T, disk bool, salt int) (*caseSpec, []string) {
 	c := &caseSpec{Disk: disk, FlushAt: -1}
 	for k := 0; k < salt; k++ {
 		// the driver hands every rapid.Check of the run the same seed: sibling
 		// tests shift the random stream so that they do not repeat each other
 		rapid.Uint64().Draw(rt, "salt")
+	}
+	if !disk && rapid.Uint64().Draw(rt, "bigSegments")%64 == 37 {
+		// a few memory cases with segments beyond the pooled buffer's capacity
+		// (they cost memory bandwidth)
+		return genBigCase(rt)
 	}
 	c.Fragment = rapid.SampledFrom([]int{1, 1, 1, 1, 1, 2, 2, 2, 3, 5, 0}).Draw(rt, "fragment")
 	base := rapid.IntRange(0, len(repoParamSets)-1).Draw(rt, "paramSet")
